@@ -291,6 +291,9 @@ func TestVerif_C32(t *testing.T) {
 		r.Event("scripted_reset_runs", 1)
 		r.Event("scripted_resets_issued", res.Resets)
 		r.Event("scripted_reset_final_sizes_checked", res.ResetsChecked)
+		r.Event("scripted_streams_finished_before_the_resets", res.FinsBeforeReset)
+		r.Event("scripted_resets_of_unfinished_streams_answered_with_reset_stream", res.ResetsOwedSeen)
+		r.Event("scripted_resets_overtaken_by_acknowledgement_of_the_whole_stream", res.ResetsOvertakenByAcks)
 		r.Event("scripted_stream_frames_seen", res.Frames)
 		r.Eval(res.ResetsChecked > 0 && res.Lost > 0, "vslr", res.Frames, res.Streams, res.ResetsChecked, res.Lost, res.Raises)
 	})
